@@ -249,19 +249,113 @@ def rule_view(ctx, M, gname, rule):
     eb = g.get("extend")
     if eb is not None:
         bi = M.info(eb)
-        ins = [s for s in bi.sites if s.callee.name == "insert" and s.callee.owner in ("FutureGroup", "StreamGroup")]
-        ok = len(ins) == 1 and ins[0].arg(0) == SELF
-        if ok:
-            r = scan.loop_item_root(ins[0].arg(1))
-            ok = r is not None and bi.body.innermost_loop(ins[0].block) is not None
-            # each loop item is inserted: from the Some edge of next() the insert is reached before the header
-            nxt = bi.by_block.get(r[3]) if ok else None
-            if nxt is not None:
-                se = bi.outcome_edges(nxt, "Some")
-                h = bi.body.innermost_loop(ins[0].block)[0]
-                ok2, bad = bi.must_reach([t for _, t in se], [ins[0].block], [h] + list(bi.return_blocks))
-                ok = ok and bool(se) and ok2
-        ctx.check(ok, rule, eb.def_, "extend inserts every item of the iterator", site=eb.span)
+        why = inserts_every_item(bi, SELF, ("param", 2))
+        ctx.check(not why, rule, eb.def_, "extend inserts every item of the iterator, once, into this group", site=eb.span, path=why)
+    fb = g.get("from_iter")
+    if fb is not None:
+        bi = M.info(fb)
+        rets = flow.returned_values(bi)
+        why = []
+        if len(rets) != 1 or rets[0][3][0] != "call" or rets[0][3][1][1] not in ("new", "with_capacity", "default") or \
+                rets[0][3][1][0] not in ("FutureGroup", "StreamGroup", "Default"):
+            why.append("from_iter does not return a freshly constructed group")
+        else:
+            fresh = rets[0][3]
+            ext = [s for s in bi.sites if s.callee.name == "extend" and s.arg(0) == fresh]
+            if ext:
+                if len(ext) != 1 or ext[0].arg(1) != ("param", 1) or bi.body.innermost_loop(ext[0].block) is not None or \
+                        not all(bi.body.dominates(ext[0].block, r_) for r_ in bi.return_blocks):
+                    why.append("from_iter does not extend the fresh group with the whole iterator exactly once")
+            else:
+                why = inserts_every_item(bi, fresh, ("param", 1))
+        ctx.check(not why, rule, fb.def_, "from_iter builds a fresh group holding every item of the iterator once", site=fb.span, path=why)
+
+
+ITER_ADAPTERS = {"into_iter", "by_ref", "fuse", "iter_mut_identity"}
+
+
+def inserts_every_item(bi, group, it_param):
+    """[] when the body inserts every item of iterator parameter `it_param` into `group`, once each; else reasons"""
+    ins = [s for s in bi.sites if s.callee.name == "insert" and s.callee.owner in ("FutureGroup", "StreamGroup")]
+    if len(ins) != 1 or ins[0].arg(0) != group:
+        return ["expected exactly one insert into the group (found %d)" % len(ins)]
+    r = scan.loop_item_root(ins[0].arg(1))
+    loop = bi.body.innermost_loop(ins[0].block)
+    if r is None or loop is None:
+        return ["the inserted value is not the item of a loop over the iterator"]
+    if ins[0].arg(1) != ("field", ("variant", r, "Some"), 0):
+        return ["the inserted value is not the loop item itself"]
+    nxt = bi.by_block.get(r[3])
+    if nxt is None or nxt.callee.name != "next":
+        return ["the loop is not driven by Iterator::next"]
+    # the iterator is the whole argument: only identity adapters between the parameter and next()
+    it = nxt.arg(0)
+    n = 0
+    while it[0] == "call" and it[1][1] in ITER_ADAPTERS and it[2] and n < 6:
+        it = it[2][0]
+        n += 1
+    if it != it_param:
+        return ["the loop does not iterate the whole argument (%s)" % short(nxt.arg(0))]
+    # nothing else consumes items of the iterator
+    others = [s for s in bi.sites if s is not nxt and s.callee.name in ("next", "nth", "skip", "step_by", "take", "filter", "last", "next_back", "advance_by", "skip_while", "take_while")
+              and s.args and scan.root_call(s.arg(0)) is not None and _peel_iter(s.arg(0)) == it_param]
+    if others:
+        return ["%s also consumes items of the iterator" % others[0].callee.name]
+    se = bi.outcome_edges(nxt, "Some")
+    ne = bi.outcome_edges(nxt, "None")
+    h = loop[0]
+    ok2, bad = bi.must_reach([t for _, t in se], [ins[0].block], [h] + list(bi.return_blocks))
+    if not se or not ok2:
+        return ["an item of the iterator can reach the next iteration or the return without being inserted"]
+    # the loop ends only when the iterator is exhausted
+    for rb in bi.return_blocks:
+        if not bi.guarded_by(rb, ne):
+            return ["the loop can end before the iterator is exhausted"]
+    return []
+
+
+def _peel_iter(t):
+    n = 0
+    while t[0] == "call" and t[1][1] in ITER_ADAPTERS and t[2] and n < 6:
+        t = t[2][0]
+        n += 1
+    return t
+
+
+def rule_ctor(ctx, M, gname, rule):
+    """with_capacity(c): slab, waker table, state table and the recorded capacity are all sized c, no keys; new() = with_capacity(0)"""
+    g = M.groups[gname]
+    simple = simple_name(g["adt"])
+    for fn in ("with_capacity", "new"):
+        b = g.get(fn)
+        ctx.require(b is not None, "%s::%s" % (gname, fn))
+        bi = M.info(b)
+        rets = flow.returned_values(bi)
+        view = flow.struct_view(M, rets[0][3], simple, bi=bi) if len(rets) == 1 else None
+        probs = []
+        if view is None:
+            probs.append("does not return one freshly built group")
+        else:
+            want = ("param", 1) if fn == "with_capacity" else ("const", 0)
+            def arg_of(t, keys):
+                if t is not None and t[0] == "call" and t[1] in keys:
+                    return t[2][0] if t[2] else ("const", 0)
+                return None
+            sl = arg_of(view.get(slab_field(gname)), (("Slab", "with_capacity"), ("Slab", "new")))
+            wk = arg_of(view.get("wakers"), (("WakerVec", "new"),))
+            st = arg_of(view.get("states"), (("PollVec", "new"), ("PollVec", "new_pending")))
+            cap = view.get("capacity")
+            for name, v in (("slab", sl), ("waker table", wk), ("state table", st), ("capacity", cap)):
+                if v != want:
+                    probs.append("%s is not sized by the requested capacity (%s)" % (name, short(v) if v else None))
+            k = view.get("keys")
+            if not (k and k[0] == "call" and k[1][1] in ("new", "default")):
+                probs.append("the key set does not start empty")
+            q = view.get("key_removal_queue")
+            if gname == "stream_group" and not (q and q[0] == "call" and q[1][1] in ("new", "default", "new_const")):
+                probs.append("the key-removal queue does not start empty")
+        ctx.check(not probs, rule, b.def_, "%s(): slab, wakers, states and capacity agree; no keys" % fn, site=b.span, path=probs)
+
 
 
 def _closure_body(M, t):
